@@ -1,1 +1,405 @@
-pub fn selftest() -> bool { true }
+//! Independent WOFF2 encoder written from the W3C WOFF2 text: directory with known/arbitrary tags,
+//! glyf/loca and hmtx transforms with every encoder choice, collections, and a *stored* brotli
+//! stream (uncompressed meta-blocks are conforming brotli; no compressor exists in this sandbox).
+
+use super::glyf::{self as ig, Glyph};
+use super::{tag, W};
+use crate::rt::Rng;
+
+pub const KNOWN_TAGS: [&str; 63] = [
+    "cmap", "head", "hhea", "hmtx", "maxp", "name", "OS/2", "post", "cvt ", "fpgm", "glyf", "loca", "prep", "CFF ", "VORG",
+    "EBDT", "EBLC", "gasp", "hdmx", "kern", "LTSH", "PCLT", "VDMX", "vhea", "vmtx", "BASE", "GDEF", "GPOS", "GSUB", "EBSC",
+    "JSTF", "MATH", "CBDT", "CBLC", "COLR", "CPAL", "SVG ", "sbix", "acnt", "avar", "bdat", "bloc", "bsln", "cvar", "fdsc",
+    "feat", "fmtx", "fvar", "gvar", "hsty", "just", "lcar", "mort", "morx", "opbd", "prop", "trak", "Zapf", "Silf", "Glat",
+    "Gloc", "Feat", "Sill",
+];
+
+// ---- stored brotli ------------------------------------------------------------------------------
+
+struct BitW {
+    out: Vec<u8>,
+    acc: u64,
+    n: u32,
+}
+impl BitW {
+    fn new() -> BitW {
+        BitW { out: Vec::new(), acc: 0, n: 0 }
+    }
+    fn bits(&mut self, v: u64, n: u32) {
+        self.acc |= v << self.n;
+        self.n += n;
+        while self.n >= 8 {
+            self.out.push(self.acc as u8);
+            self.acc >>= 8;
+            self.n -= 8;
+        }
+    }
+    fn align(&mut self) {
+        if self.n > 0 {
+            self.out.push(self.acc as u8);
+            self.acc = 0;
+            self.n = 0;
+        }
+    }
+}
+
+/// A conforming brotli stream consisting of uncompressed meta-blocks of at most `chunk` bytes.
+pub fn stored_brotli(data: &[u8], chunk: usize) -> Vec<u8> {
+    let chunk = chunk.clamp(1, 65536);
+    let mut w = BitW::new();
+    w.bits(0, 1); // WBITS = 16
+    for c in data.chunks(chunk) {
+        w.bits(0, 1); // ISLAST = 0
+        w.bits(0, 2); // MNIBBLES = 4
+        w.bits((c.len() - 1) as u64, 16); // MLEN - 1
+        w.bits(1, 1); // ISUNCOMPRESSED
+        w.align();
+        w.out.extend_from_slice(c);
+    }
+    w.bits(1, 1); // ISLAST
+    w.bits(1, 1); // ISLASTEMPTY
+    w.align();
+    w.out
+}
+
+// ---- variable-length integers -----------------------------------------------------------------------
+
+/// All legal 255UInt16 encodings of `v`.
+pub fn enc_255_all(v: u16) -> Vec<Vec<u8>> {
+    let mut out = Vec::new();
+    if v < 253 {
+        out.push(vec![v as u8]);
+    }
+    if (253..=508).contains(&v) {
+        out.push(vec![255, (v - 253) as u8]);
+    }
+    if (506..=761).contains(&v) {
+        out.push(vec![254, (v - 506) as u8]);
+    }
+    out.push(vec![253, (v >> 8) as u8, v as u8]);
+    out
+}
+pub fn enc_255(v: u16, rng: &mut Rng) -> Vec<u8> {
+    let all = enc_255_all(v);
+    // prefer the short forms but use every form
+    if rng.chance(3, 4) {
+        all[0].clone()
+    } else {
+        all[rng.below(all.len())].clone()
+    }
+}
+
+pub fn enc_base128(v: u32) -> Vec<u8> {
+    let mut groups = Vec::new();
+    let mut x = v;
+    loop {
+        groups.push((x & 0x7F) as u8);
+        x >>= 7;
+        if x == 0 {
+            break;
+        }
+    }
+    groups.reverse();
+    let n = groups.len();
+    groups.iter().enumerate().map(|(i, g)| if i + 1 < n { g | 0x80 } else { *g }).collect()
+}
+
+// ---- triplet encoding -------------------------------------------------------------------------------
+
+/// All triplet encodings (flag without the on-curve bit, data bytes) that represent (dx, dy).
+pub fn triplets(dx: i32, dy: i32) -> Vec<(u8, Vec<u8>)> {
+    let (ax, ay) = (dx.unsigned_abs(), dy.unsigned_abs());
+    let xs: Vec<u8> = if dx > 0 { vec![1] } else if dx < 0 { vec![0] } else { vec![0, 1] };
+    let ys: Vec<u8> = if dy > 0 { vec![1] } else if dy < 0 { vec![0] } else { vec![0, 1] };
+    let mut out = Vec::new();
+    if dx == 0 && ay < 1280 {
+        for &s in &ys {
+            out.push(((((ay >> 8) << 1) as u8) + s, vec![(ay & 0xFF) as u8]));
+        }
+    }
+    if dy == 0 && ax < 1280 {
+        for &s in &xs {
+            out.push((10 + (((ax >> 8) << 1) as u8) + s, vec![(ax & 0xFF) as u8]));
+        }
+    }
+    for &sx in &xs {
+        for &sy in &ys {
+            let signs = sx + (sy << 1);
+            if (1..=64).contains(&ax) && (1..=64).contains(&ay) {
+                let (x1, y1) = (ax - 1, ay - 1);
+                out.push((20 + ((x1 & 0x30) as u8) + (((y1 & 0x30) >> 2) as u8) + signs, vec![(((x1 & 0xF) << 4) | (y1 & 0xF)) as u8]));
+            }
+            if (1..=768).contains(&ax) && (1..=768).contains(&ay) {
+                let (x1, y1) = (ax - 1, ay - 1);
+                out.push((84 + 12 * ((x1 >> 8) as u8) + (((y1 >> 8) as u8) << 2) + signs, vec![(x1 & 0xFF) as u8, (y1 & 0xFF) as u8]));
+            }
+            if ax < 4096 && ay < 4096 {
+                out.push((120 + signs, vec![(ax >> 4) as u8, (((ax & 0xF) << 4) | (ay >> 8)) as u8, (ay & 0xFF) as u8]));
+            }
+            if ax < 65536 && ay < 65536 {
+                out.push((124 + signs, vec![(ax >> 8) as u8, ax as u8, (ay >> 8) as u8, ay as u8]));
+            }
+        }
+    }
+    out
+}
+
+/// Reference decoding of one triplet (W3C table), used for the encoder self-test.
+pub fn decode_triplet(flag: u8, d: &[u8]) -> (i32, i32, usize) {
+    let f = (flag & 0x7F) as i32;
+    let ws = |fl: i32, v: i32| if fl & 1 != 0 { v } else { -v };
+    let b = |i: usize| d[i] as i32;
+    if f < 10 {
+        (0, ws(f, ((f & 14) << 7) + b(0)), 1)
+    } else if f < 20 {
+        (ws(f, (((f - 10) & 14) << 7) + b(0)), 0, 1)
+    } else if f < 84 {
+        let b0 = f - 20;
+        (ws(f, 1 + (b0 & 0x30) + (b(0) >> 4)), ws(f >> 1, 1 + ((b0 & 0x0c) << 2) + (b(0) & 0x0f)), 1)
+    } else if f < 120 {
+        let b0 = f - 84;
+        (ws(f, 1 + ((b0 / 12) << 8) + b(0)), ws(f >> 1, 1 + (((b0 % 12) >> 2) << 8) + b(1)), 2)
+    } else if f < 124 {
+        (ws(f, (b(0) << 4) + (b(1) >> 4)), ws(f >> 1, ((b(1) & 0x0f) << 8) + b(2)), 3)
+    } else {
+        (ws(f, (b(0) << 8) + b(1)), ws(f >> 1, (b(2) << 8) + b(3)), 4)
+    }
+}
+
+// ---- glyf transform -----------------------------------------------------------------------------------
+
+#[derive(Clone, Debug)]
+pub struct GlyfChoices {
+    /// store an explicit bbox for simple glyphs whose bbox equals the computed one (1/8 units)
+    pub explicit_bbox: u32,
+    pub overlap_bitmap: bool,
+}
+
+/// `glyphs[i]` with its stored bbox. Returns the transformed glyf table.
+pub fn transform_glyf(glyphs: &[(Glyph, ig::BBox)], index_format: u16, ch: &GlyfChoices, rng: &mut Rng, classes: &mut Vec<u8>) -> Vec<u8> {
+    let n = glyphs.len();
+    let mut n_contour = W::new();
+    let mut n_points = W::new();
+    let mut flags = W::new();
+    let mut glyph_s = W::new();
+    let mut composite = W::new();
+    let mut bbox_bitmap = vec![0u8; 4 * ((n + 31) / 32)];
+    let mut bbox_s = W::new();
+    let mut instr = W::new();
+    let mut overlap_bitmap = vec![0u8; (n + 7) / 8];
+    let mut any_overlap = false;
+    for (i, (g, bb)) in glyphs.iter().enumerate() {
+        let mut explicit = false;
+        match g {
+            Glyph::Empty => {
+                n_contour.i16(0);
+            }
+            Glyph::Simple(s) if s.contours.is_empty() => {
+                n_contour.i16(0);
+            }
+            Glyph::Simple(s) => {
+                n_contour.i16(s.contours.len() as i16);
+                for c in &s.contours {
+                    n_points.bytes(&enc_255(c.len() as u16, rng));
+                }
+                let (mut px, mut py) = (0i32, 0i32);
+                for p in s.points() {
+                    let (dx, dy) = (p.x as i32 - px, p.y as i32 - py);
+                    px = p.x as i32;
+                    py = p.y as i32;
+                    let opts = triplets(dx, dy);
+                    let (f, data) = &opts[rng.below(opts.len())];
+                    classes.push(*f);
+                    flags.u8(if p.on { *f } else { *f | 0x80 });
+                    glyph_s.bytes(data);
+                }
+                glyph_s.bytes(&enc_255(s.instructions.len() as u16, rng));
+                instr.bytes(&s.instructions);
+                if *bb != s.bbox() || rng.chance(ch.explicit_bbox, 8) {
+                    explicit = true;
+                }
+                if s.overlap {
+                    overlap_bitmap[i / 8] |= 0x80 >> (i % 8);
+                    any_overlap = true;
+                }
+            }
+            Glyph::Composite(c) => {
+                n_contour.i16(-1);
+                let bytes = ig::write_composite(c, *bb);
+                // composite record minus the 10-byte header and minus trailing instructions
+                let ilen = if c.instructions.is_empty() { 0 } else { 2 + c.instructions.len() };
+                composite.bytes(&bytes[10..bytes.len() - ilen]);
+                if !c.instructions.is_empty() {
+                    glyph_s.bytes(&enc_255(c.instructions.len() as u16, rng));
+                    instr.bytes(&c.instructions);
+                }
+                explicit = true;
+            }
+        }
+        if explicit {
+            bbox_bitmap[i / 8] |= 0x80 >> (i % 8);
+            bbox_s.i16(bb.x_min).i16(bb.y_min).i16(bb.x_max).i16(bb.y_max);
+        }
+    }
+    let with_overlap = ch.overlap_bitmap && any_overlap;
+    let mut w = W::new();
+    w.u16(0).u16(if with_overlap { 1 } else { 0 }).u16(n as u16).u16(index_format);
+    w.u32(n_contour.len() as u32).u32(n_points.len() as u32).u32(flags.len() as u32).u32(glyph_s.len() as u32);
+    w.u32(composite.len() as u32).u32((bbox_bitmap.len() + bbox_s.len()) as u32).u32(instr.len() as u32);
+    w.bytes(&n_contour.b).bytes(&n_points.b).bytes(&flags.b).bytes(&glyph_s.b).bytes(&composite.b);
+    w.bytes(&bbox_bitmap).bytes(&bbox_s.b).bytes(&instr.b);
+    if with_overlap {
+        w.bytes(&overlap_bitmap);
+    }
+    w.b
+}
+
+/// hmtx transform (version 1). `elide_lsb` / `elide_lsb_tail` must only be set when legal.
+pub fn transform_hmtx(metrics: &[(u16, i16)], num_h_metrics: usize, elide_lsb: bool, elide_tail: bool) -> Vec<u8> {
+    let mut w = W::new();
+    w.u8((elide_lsb as u8) | ((elide_tail as u8) << 1));
+    for m in &metrics[..num_h_metrics] {
+        w.u16(m.0);
+    }
+    if !elide_lsb {
+        for m in &metrics[..num_h_metrics] {
+            w.i16(m.1);
+        }
+    }
+    if !elide_tail {
+        for m in &metrics[num_h_metrics..] {
+            w.i16(m.1);
+        }
+    }
+    w.b
+}
+
+// ---- container ----------------------------------------------------------------------------------------
+
+#[derive(Clone, Debug)]
+pub struct W2Table {
+    pub tag: u32,
+    /// bytes stored in the data block (transformed or not)
+    pub payload: Vec<u8>,
+    pub orig_length: u32,
+    /// Some(version) for glyf/loca/hmtx; 0 otherwise
+    pub transform_version: u8,
+    pub has_transform_length: bool,
+    /// use the arbitrary-tag form even for known tags
+    pub force_arbitrary_tag: bool,
+}
+
+pub fn dir_entry(t: &W2Table) -> Vec<u8> {
+    let mut w = W::new();
+    let known = KNOWN_TAGS.iter().position(|k| tag(k) == t.tag);
+    let idx = match known {
+        Some(i) if !t.force_arbitrary_tag => i as u8,
+        _ => 63,
+    };
+    w.u8(idx | (t.transform_version << 6));
+    if idx == 63 {
+        w.u32(t.tag);
+    }
+    w.bytes(&enc_base128(t.orig_length));
+    if t.has_transform_length {
+        w.bytes(&enc_base128(t.payload.len() as u32));
+    }
+    w.b
+}
+
+/// `fonts`: for collections, (flavor, table indices); None for a single font.
+pub fn build_woff2(flavor: u32, tables: &[W2Table], fonts: Option<&[(u32, Vec<u16>)]>, chunk: usize, rng: &mut Rng, metadata: bool) -> Vec<u8> {
+    let mut w = W::new();
+    w.u32(0x774F4632).u32(flavor).u32(0).u16(tables.len() as u16).u16(0);
+    let total_sfnt: usize = 12 + 16 * tables.len() + tables.iter().map(|t| (t.orig_length as usize + 3) & !3).sum::<usize>();
+    w.u32(total_sfnt as u32);
+    let comp_size_at = w.len();
+    w.u32(0).u16(1).u16(0);
+    let meta_at = w.len();
+    w.u32(0).u32(0).u32(0).u32(0).u32(0);
+    for t in tables {
+        w.bytes(&dir_entry(t));
+    }
+    if let Some(fonts) = fonts {
+        w.u32(0x0001_0000);
+        w.bytes(&enc_255(fonts.len() as u16, rng));
+        for (fl, idx) in fonts {
+            w.bytes(&enc_255(idx.len() as u16, rng));
+            w.u32(*fl);
+            for i in idx {
+                w.bytes(&enc_255(*i, rng));
+            }
+        }
+    }
+    let mut block = Vec::new();
+    for t in tables {
+        block.extend_from_slice(&t.payload);
+    }
+    let comp = stored_brotli(&block, chunk);
+    w.set_u32(comp_size_at, comp.len() as u32);
+    w.bytes(&comp);
+    if metadata {
+        w.pad4();
+        let m = b"<metadata version=\"1.0\"/>";
+        let z = stored_brotli(m, 65536);
+        let at = w.len();
+        w.bytes(&z);
+        w.set_u32(meta_at, at as u32);
+        w.set_u32(meta_at + 4, z.len() as u32);
+        w.set_u32(meta_at + 8, m.len() as u32);
+    }
+    w.pad4();
+    let len = w.len();
+    w.set_u32(8, len as u32);
+    w.b
+}
+
+pub fn selftest() -> bool {
+    let mut ok = true;
+    // every triplet encoding decodes to what it encodes; all 128 flag values are reachable
+    let mut seen = [false; 128];
+    let mut rng = Rng::new(5);
+    let mut cases: Vec<(i32, i32)> = Vec::new();
+    for v in [0, 1, -1, 63, 64, 65, -64, -65, 255, 256, 767, 768, 769, 1279, 1280, -1279, -1280, 4095, 4096, -4095, 32767, -32768, 65535, -65535] {
+        for u in [0, 1, -1, 64, -64, 65, 768, -768, 769, 1279, 1280, 4095, -4096, 65535] {
+            cases.push((v, u));
+        }
+    }
+    for _ in 0..20000 {
+        let r = |rng: &mut Rng| match rng.below(5) {
+            0 => rng.range(-64, 64) as i32,
+            1 => rng.range(-768, 768) as i32,
+            2 => rng.range(-1300, 1300) as i32,
+            3 => rng.range(-4100, 4100) as i32,
+            _ => rng.range(-65535, 65535) as i32,
+        };
+        let a = r(&mut rng);
+        let b = if rng.chance(1, 4) { 0 } else { r(&mut rng) };
+        cases.push(if rng.bool() { (a, b) } else { (b, a) });
+    }
+    for (dx, dy) in cases {
+        let opts = triplets(dx, dy);
+        if opts.is_empty() {
+            eprintln!("woff2 selftest: no encoding for ({}, {})", dx, dy);
+            ok = false;
+        }
+        for (f, d) in opts {
+            seen[f as usize] = true;
+            let (x, y, n) = decode_triplet(f, &d);
+            if (x, y) != (dx, dy) || n != d.len() {
+                eprintln!("woff2 selftest: triplet flag {} for ({}, {}) decodes to ({}, {})", f, dx, dy, x, y);
+                ok = false;
+            }
+        }
+    }
+    if seen.iter().any(|s| !s) {
+        eprintln!("woff2 selftest: flag classes never produced: {:?}", seen.iter().enumerate().filter(|(_, s)| !**s).map(|(i, _)| i).collect::<Vec<_>>());
+        ok = false;
+    }
+    ok &= enc_base128(0) == vec![0] && enc_base128(127) == vec![127] && enc_base128(128) == vec![0x81, 0] && enc_base128(u32::MAX) == vec![0x8F, 0xFF, 0xFF, 0xFF, 0x7F];
+    ok &= enc_255_all(252).len() == 2 && enc_255_all(253).len() == 2 && enc_255_all(506).len() == 3 && enc_255_all(762).len() == 1;
+    if !ok {
+        eprintln!("woff2 selftest FAILED");
+    }
+    ok
+}
